@@ -70,10 +70,11 @@ private theorem makeReq_export {lib : Lib} (laws : Laws lib) (f : Flow) (g : gua
   obtain ⟨rce, _⟩ := noCE_split gce
   obtain ⟨mb, hmb, hup⟩ := laws.method_rt f.method
   have hm : methodOf lib f.method ≠ L "CONNECT" := by simpa [gMethod] using gm
+  have heu : exportUrl lib f = f.purl := by simp [exportUrl, hm]
   obtain ⟨hp, hhp⟩ : ∃ hp, lib.urlHostport f.purl = some hp := by
-    simpa [gUrlParse, Option.isSome_iff_exists] using gp
+    simpa [gUrlParse, Option.isSome_iff_exists, heu] using gp
   -- the exported request
-  have eurl : (exportReq lib f).url = f.purl := by simp [exportReq, hm]
+  have eurl : (exportReq lib f).url = f.purl := heu
   have emeth : (exportReq lib f).method = methodOf lib f.method := rfl
   have ehdr : (exportReq lib f).headers = fmtHeaders lib f.req.hdrs := rfl
   have epost : (exportReq lib f).postData.getD [] = postText lib f := by
@@ -83,7 +84,7 @@ private theorem makeReq_export {lib : Lib} (laws : Laws lib) (f : Flow) (g : gua
   have hhost : (if hcontains f.req.hdrs kHost then (lib.senc hp).map (hset f.req.hdrs (L "Host")) else some f.req.hdrs)
       = some f.req.hdrs := by
     by_cases c : hcontains f.req.hdrs kHost = true
-    · simp only [gHost, hhp, c, if_true] at gh
+    · simp only [gHost, heu, hhp, c, if_true] at gh
       cases hs : lib.senc hp with
       | none => simp [hs] at gh
       | some hpB =>
@@ -170,7 +171,8 @@ private theorem entry_partial {lib : Lib} (laws : Laws lib) (f : Flow) (g : guar
   have hdecs := decodeMsg_noCE_clOk lib (m := { ver := sv, hdrs := f.resp.hdrs, body := f.resp.body }) false sce hcl
   have hall : SameButCL f.req.hdrs m'.hdrs := hsame.trans hs'
   have m'ce : hcontains m'.hdrs kCE = false := noCE_of_sameButCL hall rce
-  have hurl : (exportEntry lib f).request.url = f.purl := by simp [exportEntry, exportReq, hm]
+  have heu : exportUrl lib f = f.purl := by simp [exportUrl, hm]
+  have hurl : (exportEntry lib f).request.url = f.purl := heu
   refine ⟨{ method := mb, purl := lib.urlPretty f.purl (hget lib m'.hdrs kHost), req := m', status := f.status,
             resp := { ver := sv, hdrs := f.resp.hdrs, body := f.resp.body } }, ?_, ?_, ?_⟩
   · unfold importEntry
@@ -185,7 +187,7 @@ private theorem entry_partial {lib : Lib} (laws : Laws lib) (f : Flow) (g : guar
     simp only [hmeth, hm, if_false, hurl]
     rfl
   · have hhost : hget lib m'.hdrs kHost = hget lib f.req.hdrs kHost := hget_congr lib (hall.2 kHost kHost_ne_kCL)
-    have hu : lib.urlPretty f.purl (hget lib f.req.hdrs kHost) = f.purl := by simpa [gUrl] using gu
+    have hu : lib.urlPretty f.purl (hget lib f.req.hdrs kHost) = f.purl := by simpa [gUrl, heu] using gu
     have hbd : isBodyMethod (methodOf lib f.method) = true → getContent lib m' = getContent lib f.req := by
       intro hbm
       rw [getContent_noCE lib m'ce, getContent_noCE lib rce, hb']
